@@ -325,7 +325,7 @@ def _slices_spec(ev, image_x, image_y, tile_x, tile_y, width, height):
     return {
         "iy": e2("slice(iy, iy + h)", **k), "ix": e2("slice(ix, ix + w)", **k), "bx": e2("slice(tx, tx + w)", **k),
         "by_down": e2("slice(ty, ty + h)", **k),
-        "by_up": ("call", ("sym", "slice"), (e2("255 - ty", **k), ("ite", ("op", "cmp:Eq", (e2("255 - ty - h", **k), num(-1))), sym.NONE, e2("255 - ty - h", **k)), num(-1)), ()),
+        "by_up": ("call", ("sym", "slice"), (e2("255 - ty", **k), ("ite", sym.cmp("Eq", e2("255 - ty - h", **k), num(-1)), sym.NONE, e2("255 - ty - h", **k)), num(-1)), ()),
     }
 
 
@@ -349,7 +349,7 @@ def _r3_tile_image(run, ev):
     el = ("elem", gen)
     pos, width, height, image_x, image_y, tile_x, tile_y = (("item", el, i) for i in range(7))
     spec = _slices_spec(ev, image_x, image_y, tile_x, tile_y, width, height)
-    inv = ("op", "cmp:Eq", (("call", ("attr", ("sym", f.params()[2]), "get_default_vertical_parity_sign"), (), ()), num(1)))
+    inv = sym.cmp("Eq", ("call", ("attr", ("sym", f.params()[2]), "get_default_vertical_parity_sign"), (), ()), num(1))
     if len(a) != 5:
         run.undecided("C08.R3", f, e.node, "fill call has %d args" % len(a), kind="fill-args")
         return
@@ -416,7 +416,7 @@ def _r5_clones(run):
         pos, width, height, image_x, image_y, tile_x, tile_y = (("item", el, i) for i in range(7))
         spec = _slices_spec(ev, image_x, image_y, tile_x, tile_y, width, height)
         pio = "pio"
-        inv = ("op", "cmp:Eq", (("call", ("attr", ("sym", pio), "get_default_vertical_parity_sign"), (), ()), num(1)))
+        inv = sym.cmp("Eq", ("call", ("attr", ("sym", pio), "get_default_vertical_parity_sign"), (), ()), num(1))
         want = [spec["iy"], spec["ix"], ("ite", inv, spec["by_up"], spec["by_down"]), spec["bx"]]
         names = ["iy", "ix", "by", "bx"]
         bad = False
